@@ -109,7 +109,7 @@ func init() {
 					"rev-parse": 6, "commit": 8, "reset": 2, "write": 8, "add": 6, "restore": 0, "rm": 1, "junk": 1, "lock-twin-probe": 3}),
 				Oracles: []HistOracle{orC10}, AbsRefine: true}
 		})
-	checks["C13"] = histCheck("C13", []string{"C13.status_ok", "C13.modified_iff", "C13.same_bytes_not_modified", "C13.deleted_iff", "C13.untracked_iff", "C01.encode_injective", "C06.getEntry_correct", "C17.nothing_hidden_without_ignore"}, histRule,
+	checks["C13"] = histCheck("C13", []string{"C13.world_status_ok", "C13.status_ok", "C13.modified_iff", "C13.same_bytes_not_modified", "C13.deleted_iff", "C13.untracked_iff", "C01.encode_injective", "C06.getEntry_correct", "C17.nothing_hidden_without_ignore"}, histRule,
 		func(ctx *Ctx) *HistCfg {
 			return &HistCfg{Prop: "C13", Cases: tierN(ctx, 200, 2000), MinSteps: 8, MaxSteps: 30,
 				W:       weights(Weights{"status": 18, "write": 18, "rewrite-same": 6, "touch": 4, "rmfile": 8, "rmdir": 4, "mkdir": 2, "ignore": 5, "ignore-probe": 6, "dir-gone-probe": 5, "commit": 8, "add": 12, "edit-same-size": 8, "junk": 0}),
